@@ -135,7 +135,7 @@ ENTRIES = STR_ENTRIES + RE_ENTRIES
 PAIR_ENTRIES_QUICK = [("s", ".js"), ("s", ".py"), ("s", ".tar.gz"), ("re", r"^sub/"), ("re", r"(?i)\.js$")]
 PAIR_ENTRIES_THOROUGH = [("s", ".js"), ("s", ".JS"), ("s", ".py"), ("s", ".tar.gz"), ("s", ".c++"), ("s", ".min.js"),
                          ("re", r"^sub/"), ("re", r"(?i)\.js$"), ("re", ROOT_MARK), ("re", r".*")]
-LAYOUTS = ["multi", "single", "legacy"]
+LAYOUTS = ["multi", "single", "legacy", "both", "empty"]
 FORMS = ["new", "deprecated", "settings_object"]
 _RX = {}
 
@@ -167,7 +167,10 @@ def configs(tier):
     # the other spellings / directory layouts: every forbidden value x a few allowed values and vice versa
     singles = [None, []] + [[e] for e in ENTRIES]
     for layout, form in [("multi", "deprecated"), ("multi", "settings_object"), ("single", "new"), ("legacy", "new"),
-                         ("single", "deprecated"), ("legacy", "settings_object")]:
+                         ("single", "deprecated"), ("legacy", "settings_object"),
+                         # COMPONENTS.dirs given (one directory / the empty list) next to a non-empty STATICFILES_DIRS: the legacy
+                         # fallback applies only when `dirs` is NOT SET, in every spelling of the COMPONENTS setting
+                         ("both", "new"), ("both", "settings_object"), ("empty", "new"), ("empty", "settings_object"), ("empty", "deprecated")]:
         seen = set()
         for allowed in small:
             for forbidden in singles:
@@ -240,6 +243,14 @@ class Env:
         elif layout == "legacy":
             self.labels = ["r1", "r2"]
             self.base = {"app_dirs": []}
+            kw["STATICFILES_DIRS"] = [roots["r1"], ("pfx", roots["r2"])]
+        elif layout == "both":
+            self.labels = ["r1"]
+            self.base = {"dirs": [roots["r1"]], "app_dirs": []}
+            kw["STATICFILES_DIRS"] = [("pfx", roots["r2"])]
+        elif layout == "empty":
+            self.labels = []
+            self.base = {"dirs": [], "app_dirs": []}
             kw["STATICFILES_DIRS"] = [roots["r1"], ("pfx", roots["r2"])]
         else:
             raise ValueError(layout)
